@@ -1,10 +1,34 @@
 # table of claims; exec'd by tools/mkmanifest.py
+claim('C01', 'proof',
+      'Bounded proof (per obligation: z3 unsat over all real inputs): on every grid class the volume-weighted column sums of the '
+      'matrices built by the real diffusionTerm/convectionTerm/convectionUpwindTerm for a coefficient on one interior face vanish; '
+      'boundary faces carry exactly area x documented face flux (independent area oracle); divergenceTerm and the TVD correction '
+      'likewise; one implicit (solver stub, residual-sum identity) or explicit step from an arbitrary state keeps domainIntegral() '
+      'for closed / periodic configurations. Known findings: SphericalGrid3D family, upwind x periodic axis.',
+      'DESIGN.md 2/C01')
+claim('C05', 'proof',
+      'Bounded proof: for a symbolic coefficient on each face in turn and a fully symbolic field incl. ghost cells, the rows of the '
+      'matrices of diffusionTerm / convectionTerm / convectionUpwindTerm(u, u_upwind) (public dispatchers) equal '
+      'divergenceTerm(coef * gradientTerm | linearMean | upwindMean) on all 9 grid classes; TVD: zero limiter gives 0, unit limiter on '
+      'uniform spacing turns upwind into central; solveExplicitPDE advances by the same operator.',
+      'DESIGN.md 2/C05')
+claim('C06', 'proof',
+      'Bounded proof: diffusion of a constant is 0, central/upwind advection of a constant k is k*divergenceTerm(u) (face basis, all '
+      'sign patterns as ite), TVD of a constant is 0 and total; the uniform state has zero residual in the system the real solvePDE '
+      'assembles for transient+diffusion+upwind in a discretely divergence-free field (Dirichlet k / no-flux / periodic); source terms '
+      'alone give a diagonal system with solution gamma/beta.',
+      'DESIGN.md 2/C06')
 claim('C10', 'proof',
       'Bounded proof: every geometric quantity the grid constructors report (dims, faces, centres, sizes incl. ghost sizes, '
       'per-cell volume, positivity, total) is shown equal to an independent textbook oracle for ALL strictly increasing face '
       'positions (symbolic reals) on all 9 grid classes and both constructor forms, for the listed cell counts; coordinate labels '
-      'enumerated exhaustively.',
+      'enumerated exhaustively. Known finding: SphericalGrid3D volumes.',
       'DESIGN.md 2/C10')
+claim('C13', 'proof',
+      'Bounded proof: each of the 16 limiter closures (and the fallback) equals the published closed form for every real r, is total '
+      '(all denominators non-zero for every real r), satisfies psi(1)=1, 0<=psi<=min(2r,4) for r>0, vanishes for r<=0 where defined by '
+      'clipping, acts elementwise on 0-3-D arrays; the TVD correction has no vanishing denominator for any field on all 9 grid classes.',
+      'DESIGN.md 2/C13')
 _todo = 'check under construction in this session (engine present; obligation family not landed yet)'
 for _p in ['C01','C02','C03','C04','C05','C06','C07','C08','C09','C11','C12','C13','C14','C15','C16','C17']:
     if _p not in CHECKS:
